@@ -257,7 +257,22 @@ func (c *pctx) expr(t *rapid.T, need int) (string, int) {
 			if strings.HasSuffix(base, ".") || base == ".." || (base[0] >= '0' && base[0] <= '9') || base[0] == '-' {
 				base = "(" + base + ")"
 			}
-			suf := pick(t, "suffix", []string{"[]", "[0]", "[1]", "[-1]", ".a", ".b", "[1:]", "[:1]", "?", "[]?", ".a?", "[\"a\"]", "?"})
+			suf := pick(t, "suffix", []string{"[]", "[0]", "[1]", "[-1]", ".a", ".b", "[1:]", "[:1]", "?", "[]?", ".a?", "[\"a\"]", "?", "[K]", "[K]?", "[K]?"})
+			if strings.Contains(suf, "K") {
+				// computed keys: evaluated on the input of the whole term
+				c.feat("computed-index")
+				key := func() string {
+					if rapid.IntRange(0, 2).Draw(t, "keygen") == 0 {
+						return c.child().sub(t, pPipe)
+					}
+					return pick(t, "key", []string{".b", ".c", ".b", ".[1]", ".[2]", "length", "(.b, .c)", "(.[1], .[2])", "\"a\"", "0", "1", "(keys[0])?", "$__loc__.line", "(.b // 0)", "-1", "null"})
+				}
+				form := pick(t, "keyform", []string{"[%s]", "[%s]", "[%s]", "[%s:]", "[:%s]", "[%s:%s]", ".\"\\(%s)\"", ".\"a\\(%s)\""})
+				for strings.Contains(form, "%s") {
+					form = strings.Replace(form, "%s", key(), 1)
+				}
+				suf = strings.Replace(suf, "[K]", form, 1)
+			}
 			if suf == "?" || strings.HasSuffix(suf, "?") {
 				c.feat("optional")
 			}
@@ -634,7 +649,8 @@ func (c *pctx) builtin(t *rapid.T) string {
 // PathExpr generates an expression of the path-safe grammar of C02.
 func (c *pctx) PathExpr(t *rapid.T, depth int) string {
 	if depth <= 0 {
-		return pick(t, "pathatom", []string{".", ".a", ".b", ".[0]", ".[1]", ".[]", ".[-1]", ".a[0]", ".[1:]", ".[:1]", ".a.b", ".[]?", "..", ".c", ".[\"a\"]", ".[0:2]", ".a[]"})
+		return pick(t, "pathatom", []string{".", ".a", ".b", ".[0]", ".[1]", ".[]", ".[-1]", ".a[0]", ".[1:]", ".[:1]", ".a.b", ".[]?", "..", ".c", ".[\"a\"]", ".[0:2]", ".a[]",
+			".a[.b]?", ".a[.b]", ".a[.c:]?", ".a[(.b, .c)]?", ".[0][.[1]]?", ".a.\"\\(.b)\"?", ".a[.b]?[.c]?", ".a[:.b]?"})
 	}
 	switch rapid.IntRange(0, 19).Draw(t, "pathkind") {
 	case 18, 19:
